@@ -73,9 +73,10 @@ def split_measure(gates):
     return g, m
 
 
-def circuit_from_gates(n, gates):
-    from qiskit import QuantumCircuit
-    qc = QuantumCircuit(n)
+def circuit_from_gates(n, gates, split=0):
+    """split = k > 0: the same circuit with its qubits in two quantum registers of k and n - k qubits (global qubit indices unchanged)"""
+    from qiskit import QuantumCircuit, QuantumRegister
+    qc = QuantumCircuit(n) if not (0 < split < n) else QuantumCircuit(QuantumRegister(split, "ra"), QuantumRegister(n - split, "rb"))
     for name, a, b in gates:
         if name in ("i", "id"):
             qc.id(a)
